@@ -134,6 +134,14 @@ def _list_loop(c, where, elem, valid, with_tail=False, peek=None, extra_havoc=No
         ls.invariants.append((lab, e))
     ls.lemmas_head = ['_y = reveal_head(todo, %s, "encode", "total_length")' % valid]
     ls.decreases = 'len(rem(stream))'
+    # the clauses above specify the round trip (C01/C02).  For totality / termination on arbitrary
+    # input (C12) only the havoc, the variant and the definition of the look-ahead variable apply.
+    ls.only_for = {'C01', 'C02'}
+    # C12: the read position never moves backwards (so the enclosing decoder has consumed something)
+    ls.for_prop('C12', consts=[('_rem_len0', 'len(rem(stream))')],
+                invariants=[('position-monotone', 'len(rem(stream)) <= _rem_len0')])
+    if peek:
+        ls.for_prop('C12', invariants=[('peek', 'same(%s, _next_type(copy_stream(stream)))' % peek)])
     return ls
 
 
